@@ -1,6 +1,7 @@
 import DiffxVerif.Model.Reader
 import DiffxVerif.Lemmas.Split
 import DiffxVerif.Lemmas.Stream
+import DiffxVerif.Lemmas.Header
 /-!
 # Totality and error positions of the streaming reader
 
